@@ -43,6 +43,8 @@ def programs(t):
                    ev('DBG_DYLD_TIMING_LAUNCH_EXECUTABLE', 2, (0, 0, 0, 0), t)],
         # announces a child whose thread id is the id of another participating thread (ids are recycled / the child is already running)
         'newthread-of-sibling': [ev('TRACE_DATA_NEWTHREAD', 0, (t % 3 + 1, pid + 5, 0, 0), t), ev('TRACE_STRING_NEWTHREAD', 0, tid=t, data=S(nm + b'c'))],
+        # a call whose START fell before the capture: only its END is in the stream (the head of any real trace)
+        'orphan-end': [ev('BSC_getpid', 2, (0, 7 * t, 0, 0), t), ev('BSC_getuid', 2, (0, t, 0, 0), t)],
         'exec+rename': [ev('TRACE_DATA_EXEC', 0, (pid + 2, 0, 0, 0), t), ev('BSC_getpid', 1, tid=t), ev('TRACE_STRING_EXEC', 0, tid=t, data=S(nm + b'y')),
                         ev('BSC_getpid', 2, (0, pid, 0, 0), t)],
     }
@@ -51,8 +53,8 @@ def programs(t):
 NAMES = list(programs(1))
 
 
-def run(seq):
-    tp, pn = {}, {}
+def run(seq, prefilled=False):
+    tp, pn = ({1: 91, 2: 92, 3: 93}, {91: 'q1', 92: 'q2', 93: 'q3'}) if prefilled else ({}, {})
     p = TracesParser(E.codes(), tp, pn)
     per = {}
     for i, e in enumerate(seq):
@@ -66,24 +68,26 @@ def run(seq):
 _SOLO = {}
 
 
-def solo(name, t, trunc):
-    k = (name, t, trunc)
+def solo(name, t, trunc, prefilled=False):
+    k = (name, t, trunc, prefilled)
     if k not in _SOLO:
         prog = programs(t)[name][:trunc]
-        _SOLO[k] = (prog, run(prog))
+        _SOLO[k] = (prog, run(prog, prefilled))
     return _SOLO[k]
 
 
-def judge(combo, schedule, trunc):
+def judge(combo, schedule, trunc, prefilled=False):
     """combo: tuple of program names for threads 1..n; schedule: tuple of thread indices."""
     progs = []
-    exp_per, exp_tp, exp_pn, exp_tn, exp_gs = {}, {}, {}, {}, {}
+    base_tp, base_pn = ({1: 91, 2: 92, 3: 93}, {91: 'q1', 92: 'q2', 93: 'q3'}) if prefilled else ({}, {})
+    exp_per, exp_tp, exp_pn, exp_tn, exp_gs = {}, dict(base_tp), dict(base_pn), {}, {}
     for i, name in enumerate(combo):
-        prog, (per, tp, pn, tn, gs) = solo(name, i + 1, trunc)
+        prog, (per, tp, pn, tn, gs) = solo(name, i + 1, trunc, prefilled)
         progs.append(prog)
         exp_per.update(per)
-        exp_tp.update(tp)
-        exp_pn.update(pn)
+        # what this thread's own program learned = its changes relative to the initial tables
+        exp_tp.update({k: v for k, v in tp.items() if base_tp.get(k) != v})
+        exp_pn.update({k: v for k, v in pn.items() if base_pn.get(k) != v})
         exp_tn.update(tn)
         exp_gs.update(gs)
     pos = [0] * len(progs)
@@ -92,7 +96,7 @@ def judge(combo, schedule, trunc):
         merged.append(progs[th][pos[th]])
         pos[th] += 1
     try:
-        per, tp, pn, tn, gs = run(merged)
+        per, tp, pn, tn, gs = run(merged, prefilled)
     except Exception as ex:
         return ('interleaving-raised:' + type(ex).__name__, {'error': repr(ex)[:200]})
     if per != exp_per:
@@ -113,11 +117,11 @@ def judge(combo, schedule, trunc):
 class C05(Check):
     pid = 'C05'
     level = 'model_checking'
-    rule = ('schedules: for every ordered pair (and, per tier, triple) of per-thread programs from a library of 12 (syscall with '
+    rule = ('schedules: for every ordered pair (and, per tier, triple) of per-thread programs from a library of 13 (syscall with '
             'lookup, NEWTHREAD data+string, EXEC data+string, nested syscalls, thread name + terminate, sampler window, global '
             'string + dlopen, 3-record lookup inside stat64, page fault with nested record, launch with nested map, EXEC pair with '
-            'an unrelated syscall in between, NEWTHREAD pair announcing a sibling participant\'s thread id), each parameterised by its own tid/pid/names, EVERY interleaving (merge preserving '
-            'each program\'s order) is fed to a fresh TracesParser. quick: all pairs (full programs) + all triples of programs '
+            'an unrelated syscall in between, NEWTHREAD pair announcing a sibling participant\'s thread id, two ENDs whose STARTs fell before the capture), each parameterised by its own tid/pid/names, EVERY interleaving (merge preserving '
+            'each program\'s order) is fed to a fresh TracesParser - once built with empty tables and once with a thread map already populated at construction. quick: all pairs (full programs) + all triples of programs '
             'truncated to 2 events; thorough: all pairs and all triples of full programs. Oracle: per-thread list of (trace type, '
             'text, window) equals the solo run of that thread\'s program; learned tables equal the union of the solo runs. '
             'states = distinct program combinations; transitions = feeds; non-trivial = schedule with at least one context switch '
@@ -145,7 +149,7 @@ class C05(Check):
                 continue
             lens = [len(programs(i + 1)[n][:trunc]) for i, n in enumerate(combo)]
             for sched in interleavings(lens):
-                bad = judge(combo, sched, trunc)
+                bad = judge(combo, sched, trunc) or judge(combo, sched, trunc, prefilled=True)
                 switches = sum(1 for a, b in zip(sched, sched[1:]) if a != b)
                 acc.case(nontrivial=switches >= len(combo), transitions=len(sched), state=h64(combo), outcome=h64((combo, bad is None)))
                 if bad:
@@ -155,7 +159,8 @@ class C05(Check):
                     acc.sample({'programs': list(combo), 'schedule_thread_indices': list(sched)})
 
     def replay(self, case):
-        bad = judge(tuple(case['programs']), tuple(case['schedule']), case['trunc'])
+        bad = judge(tuple(case['programs']), tuple(case['schedule']), case['trunc']) or \
+            judge(tuple(case['programs']), tuple(case['schedule']), case['trunc'], prefilled=True)
         if not bad:
             return []
         sig = bad[0] + ':' + '+'.join(sorted(set(case['programs']))) if bad[0].startswith('interleaving-raised') else bad[0]
